@@ -144,7 +144,7 @@ hg_init(void) {
 	setitimer(ITIMER_VIRTUAL, &it, NULL);
 }
 
-/* returns 1 when the callee had to be abandoned (clause no-termination or crash-*) */
+/* returns 1 when the callee had to be abandoned (clause no-termination, guard-page:* or fault-*) */
 static int __attribute__((noinline))
 hg_call(void (*fn)(void *), void *ctx) {
 	hg_serial ++;
@@ -158,7 +158,7 @@ hg_call(void (*fn)(void *), void *ctx) {
 		snprintf(clause, sizeof(clause), "guard-page:%s-%s:%s", hg_fault_write ? "WRITE" : "READ", hg_fault_hi ? "past-end" : "before-start", gp[hg_fault_slot].name);
 		vh_fail(clause, "access to the guard page %s the object '%s' (%zu bytes): byte offset %ld", hg_fault_hi ? "right behind" : "right before",
 		    gp[hg_fault_slot].name, gp[hg_fault_slot].obj_len, hg_fault_off);
-	} else vh_fail((2 == hg_why) ? "crash-SIGSEGV" : "crash-SIGBUS", "the call faulted on an unmapped address");
+	} else vh_fail((2 == hg_why) ? "fault-SIGSEGV" : "fault-SIGBUS", "the call faulted on an unmapped address");
 	return (1);
 }
 
